@@ -1910,7 +1910,10 @@ static void compile_expr(CG *cg, ASTNode *node) {
                     break;
                 }
                 int val = (ed->variant_values) ? ed->variant_values[vi] : vi;
-                emit_op(cg, OP_ENUM_VAL, ed->def_idx, val);
+                /* An enum constant IS the integer of its definition (spec 3.4.2).  ENUM_VAL carries a u16
+                 * operand (negative values and values above 65535 were cut) and produces a value with its own
+                 * tag that <, <=, int_to_string ... do not know; push the integer itself. */
+                emit_op(cg, OP_PUSH_I64, (int64_t)val);
                 break;
             }
         }
